@@ -362,8 +362,10 @@ def run_cli(tool, data, blocked, ebcdic, scratch):
     try:
         with contextlib.redirect_stdout(sink), contextlib.redirect_stderr(sink), steps.budget(steps.limit_for(len(data)) * 3):
             if tool == 'mci_ipm_to_csv':
-                mci_ipm_to_csv.cli_run(in_filename=path, out_filename=out, in_encoding='cp500' if ebcdic else 'latin_1',
-                                       out_encoding='utf8', no1014blocking=not blocked)
+                argv = [path, '-o', out, '--in-encoding', 'cp500' if ebcdic else 'latin_1', '--out-encoding', 'utf8']
+                if not blocked:
+                    argv.append('--no1014blocking')
+                mci_ipm_to_csv.cli_run(**vars(mci_ipm_to_csv.cli_parser().parse_args(argv)))   # what cli_entry does with sys.argv
             else:
                 args = ['extract', path, '-s', 'ebcdic' if ebcdic else 'ascii', '--csvoutputfile', out]
                 if not blocked:
